@@ -544,6 +544,26 @@ def rule_names():
     return _RULE_NAMES
 
 
+_RULE_TEXT = None
+
+
+def type_known_to_rules(ty):
+    """does any rule source mention this type (by its last path segment)?  A method of a type no rule knows about cannot be an
+    anchor a rule looks for, whatever its name (a range helper with a `contains` method vs the deny list lookup of the same name)"""
+    global _RULE_TEXT
+    if _RULE_TEXT is None:
+        base = os.path.dirname(os.path.abspath(__file__))
+        txt = []
+        for d in (base, os.path.join(os.path.dirname(base), "props")):
+            for fn_ in os.listdir(d):
+                if fn_.endswith(".py"):
+                    with open(os.path.join(d, fn_)) as fh:
+                        txt.append(fh.read())
+        _RULE_TEXT = "\n".join(txt)
+    seg = (ty or "").split("<")[0].split("::")[-1]
+    return (not seg) or seg in _RULE_TEXT
+
+
 def _shift(o, off_l, off_b, is_term=False):
     """deep copy of a MIR json node with local numbers shifted by off_l"""
     if isinstance(o, dict):
@@ -604,6 +624,8 @@ def is_private_helper(g):
         return False
     if hasattr(g, "facts") and g.id in getattr(g.facts, "_anchor_ids", ()):
         return False       # found to play an anchor role by its behaviour (e.g. a renamed validator)
+    if not type_known_to_rules(g.j.get("self_ty")) and g.j.get("self_ty"):
+        return True
     return (g.j.get("method") or g.name.split("::")[-1]) not in rule_names()
 
 
@@ -714,7 +736,8 @@ def inline_private_helpers(F, fn, depth=2, max_blocks=4000, light=True, also_typ
                 conv_impl = True
             if (g.j.get("trait") and not conv_impl) or g.j.get("in_trait") or g.id in getattr(F, "_anchor_ids", ()):
                 continue
-            if (g.j.get("method") or g.name.split("::")[-1]) in anchors and g_ty not in also_types and g.id not in also_types and not conv_impl:
+            if (g.j.get("method") or g.name.split("::")[-1]) in anchors and g_ty not in also_types and g.id not in also_types and not conv_impl \
+                    and type_known_to_rules(g_ty):
                 continue        # (a name some rule looks for stays a call - except on a type / function the caller asked to open up)
             same_type = g_ty == base_ty
             # a non-public function or method written in the same file as its caller (module privacy: only this module can call
